@@ -17,6 +17,7 @@ fn arg_pool(r: &mut Rng) -> String {
 }
 
 pub fn run(seed: u64, n: usize, out: &mut Out, tier: &str) {
+    run_assembly(seed, n / 2, out);
     let mut r = Rng::new(seed);
     // (1) all 256 x 256 (resource permission, list permission) pairs
     for req in 0u16..256 {
@@ -167,5 +168,110 @@ pub fn run(seed: u64, n: usize, out: &mut Out, tier: &str) {
         }
         out.oracle_case(&format!("{}", desc), &desc, script.contains("BODY_"));
         out.bump("multi_list_pages");
+    }
+}
+
+// ---------------------------------------------------------------------------------------------
+// (5) assembly of the injected script against the Lean model: stores with aliases, dependency
+//     graphs (cycles also through aliases, self loops, missing nodes), function- and template-style
+//     bodies, non-injectable kinds, undecodable content; injection lists with repeats under
+//     different permission masks
+pub fn run_assembly(seed: u64, n: usize, out: &mut Out) {
+    use adblock::resources::{Resource, ResourceStorage};
+    let mut r = Rng::new(seed ^ 0x1818);
+    let names = ["a.js", "b.js", "c.js", "t.js", "u.js", "d.fn", "e.fn", "tpl.js", "img.js", "plain"];
+    let aliases = ["aa.js", "bb.js", "cc", "a", "x.js", "dd.fn", "ee.fn", "t"];
+    for _ in 0..n {
+        let k = 2 + r.below(5);
+        let mut storage = ResourceStorage::default();
+        let mut dump: Vec<String> = vec![];
+        let mut described = vec![];
+        // the names of this store (mostly distinct, so that most additions are accepted)
+        let mut chosen: Vec<String> = vec![];
+        for _ in 0..k {
+            let c = r.pick(&names).to_string();
+            if !chosen.contains(&c) || r.pct(10) {
+                chosen.push(c);
+            }
+        }
+        let mut chosen_aliases: Vec<String> = vec![];
+        for name in chosen.clone() {
+            let mut al: Vec<String> = vec![];
+            for _ in 0..r.below(3) {
+                let a = r.pick(&aliases).to_string();
+                if r.pct(15) || !chosen_aliases.contains(&a) {
+                    al.push(a);
+                }
+            }
+            chosen_aliases.extend(al.iter().cloned());
+            let fname: String = name.chars().filter(|c| c.is_ascii_alphanumeric()).collect();
+            let (kind, text) = match r.below(12) {
+                0 => (ResourceType::Template, format!("/*T:{}*/ {{{{1}}}}-{{{{2}}}}-{{{{1}}}}-{{{{10}}}}", name)),
+                1 => (ResourceType::Mime(MimeType::ImageGif), "GIF89a".to_string()),
+                2 => (ResourceType::Mime(MimeType::ApplicationJavascript), format!("/*tpl:{}*/ var x = '{{{{1}}}}', y = {{{{2}}}};", name)),
+                3 => (ResourceType::Mime(MimeType::ApplicationJavascript), format!("function  {} \t( a ) {{ /*{}*/ }}", fname, name)),
+                4 => (ResourceType::Mime(MimeType::ApplicationJavascript), format!("function(){{ /*anon:{}*/ }}", name)),
+                5 => (ResourceType::Mime(MimeType::ApplicationJavascript), format!("function {}.x(a){{ /*{}*/ }}", fname, name)),
+                6 => (ResourceType::Mime(MimeType::ApplicationJavascript), format!(" function {}(a){{ /*lead-space:{}*/ }}", fname, name)),
+                7 => (ResourceType::Mime(MimeType::ApplicationJavascript), format!("function {}{{}}(a){{ /*brace:{}*/ }}", fname, name)),
+                8 => (ResourceType::Mime(MimeType::FnJavascript), format!("function {}(a){{ /*fn:{}*/ }}", fname, name)),
+                _ => (ResourceType::Mime(MimeType::ApplicationJavascript), format!("function {}(a, b){{ /*{}*/ }}", fname, name)),
+            };
+            let perm = *r.pick(&[&0u8, &0u8, &0u8, &0u8, &1u8, &2u8, &3u8]);
+            let mut res: Resource = mk_resource(&name, &al.iter().map(|s| s.as_str()).collect::<Vec<_>>(), kind.clone(), &text, perm);
+            let mut text_opt = Some(text.clone());
+            if matches!(kind, ResourceType::Template) && r.pct(25) {
+                // Template resources are not validated when they are added
+                res.content = "!!!not base64!!!".to_string();
+                text_opt = None;
+            }
+            res.dependencies = vec![];
+            for _ in 0..r.below(3) {
+                let d = if r.pct(70) { r.pick_s(&chosen) } else if r.pct(70) && !chosen_aliases.is_empty() { r.pick_s(&chosen_aliases) } else if r.pct(50) { r.pick(&aliases).to_string() } else { "missing.fn".to_string() };
+                res.dependencies.push(d);
+            }
+            if !matches!(kind, ResourceType::Mime(MimeType::ApplicationJavascript) | ResourceType::Mime(MimeType::FnJavascript) | ResourceType::Template) {
+                res.dependencies.clear();
+            }
+            let ok = storage.add_resource(res.clone()).is_ok();
+            described.push(json!({"name": name, "aliases": al, "kind": kind_name(&kind), "text": text_opt, "permission": perm, "dependencies": res.dependencies, "accepted": ok}));
+            if ok {
+                dump.push(format!("{};{};{};{};{};{}", hex(&name), hex_list(&al), hex(&kind_name(&kind)), opt_hex(text_opt.as_deref()), perm, hex_list(&res.dependencies)));
+            }
+        }
+        let ni = 1 + r.below(5);
+        let mut inj: Vec<(String, u8)> = vec![];
+        for _ in 0..ni {
+            let raw = match r.below(10) {
+                0 => crate::c11::sarg_soup(&mut r),
+                1 => format!("{}, {}", r.pick(&["a", "a.js", "aa", "t", "tpl", "b"]), arg_pool(&mut r)),
+                2 => r.pick(&["a, {x}", "a, {\"k\": 1}", "", " ", "nosuch", "img.gif", "e", "tpl, $1, $$, {{2}}", "t, {{2}}, x", "a, \"q, r\", 's'", "t.js, 1, 2, 3, 4, 5, 6, 7, 8, 9, 10"]).to_string(),
+                _ => {
+                    let from_store = if r.pct(70) { r.pick_s(&chosen) } else if !chosen_aliases.is_empty() && r.pct(60) { r.pick_s(&chosen_aliases) } else { "x".to_string() };
+                    let from_store = if r.pct(50) { from_store.trim_end_matches(".js").to_string() } else { from_store };
+                    let pool_pick = r.pick(&["a", "b", "a.js", "b.js", "c.fn", "aa", "bb", "t", "tpl", "e", "d.fn", "x"]).to_string();
+                    let nm = if r.pct(80) { from_store } else { pool_pick };
+                    let args: Vec<String> = (0..r.below(3)).map(|_| r.pick(&["x", "1", "$1", "a b", "{{1}}", "\u{e9}", "\"", "\\"]).to_string()).collect();
+                    if args.is_empty() { nm.to_string() } else { format!("{}, {}", nm, args.join(", ")) }
+                }
+            };
+            let mask = *r.pick(&[&0u8, &0u8, &1u8, &2u8, &3u8, &3u8]);
+            inj.push((raw.clone(), mask));
+            if r.pct(30) {
+                inj.push((raw, *r.pick(&[&0u8, &1u8, &2u8, &3u8])));
+            }
+        }
+        let inj2 = inj.clone();
+        let desc = json!({"resources": described, "injections": inj});
+        let got = guarded(std::panic::AssertUnwindSafe(|| storage.get_scriptlet_resources(inj2.iter().map(|(s, m)| (s.as_str(), PermissionMask::from_bits(*m))))));
+        match got {
+            Err(p) => out.fail("panic-in-scriptlet-assembly", None, json!({"case": desc, "panic": p})),
+            Ok(script) => {
+                let op = format!("sres\t{}\t{}", if dump.is_empty() { "-".to_string() } else { dump.join("|") },
+                    inj.iter().map(|(s, m)| format!("{}:{}", hex(s), m)).collect::<Vec<_>>().join(","));
+                out.bump(if script.is_empty() { "assembly_empty" } else { "assembly_nonempty" });
+                out.case(&op, &hex(&script), json!({"api": "get_scriptlet_resources", "case": desc, "script": script.chars().take(300).collect::<String>()}), !script.is_empty());
+            }
+        }
     }
 }
